@@ -229,7 +229,8 @@ class Minimiser:
                     continue
                 if isinstance(cur, list) and path and path != ("ops",):
                     # expression hoisting: replace ["op", a, b] by a or b
-                    if cur and isinstance(cur[0], str):
+                    if cur and isinstance(cur[0], str) and cur[0] not in ("exists", "forall"):
+                        # (never hoist the body out of a quantifier: it would leave a free variable)
                         for c in cur[1:]:
                             if isinstance(c, list) and c and isinstance(c[0], str):
                                 cand = copy.deepcopy(self.best)
@@ -251,6 +252,8 @@ class Minimiser:
                     continue
                 if path and path[0] == "knobs":
                     continue  # tuning knobs have their own legal values
+                if isinstance(cur, list) and len(cur) == 3 and cur and cur[0] in ("int", "real"):
+                    continue  # a type descriptor ["int", lo, hi]: shrinking bounds changes what is well-typed
                 items = cur.items() if isinstance(cur, dict) else enumerate(cur)
                 for k, v in list(items):
                     if isinstance(v, bool) or not isinstance(v, int):
